@@ -128,6 +128,8 @@ Section PolyOps.
     b <- poly_mul a tmp ;;
     let b := trimmed b in
     let b := if Nat.ltb l (length b) then firstn l b else b in
+    (* b.coeffs.resize(l, F::ZERO): the correction stays aligned at x^l (repair of /repo commit 119d559) *)
+    let b := b ++ repeat 0 (l - length b) in
     Some (a ++ b).
 
   Definition inv_mod_xn (p : list F) (n : nat) : option (list F) :=
@@ -163,7 +165,8 @@ Section PolyOps.
       rhs <- slice_to (poly_rev a) (S (a_d - b_d)) ;;
       prod <- poly_mul rev_b_inv rhs ;;
       rev_q <- slice_to prod (S (a_d - b_d)) ;;
-      let q := poly_rev rev_q in
+      (* rev_q.coeffs.into_iter().rev(): reversed as it is, no trim (repair of /repo commit 119d559) *)
+      let q := rev rev_q in
       qb <- poly_mul q b ;;
       r <- poly_sub a qb ;;
       Some (trimmed q, trimmed r).
